@@ -374,8 +374,83 @@ fn part_directed(ctx: &Ctx, sink: &mut Sink) {
     }
 }
 
+/// (7) let-abstraction of *literal* operands of scalar arithmetic: `a ^ 3` against `t = 3`, `a ^ t`, against
+/// `(p => a ^ p)(3)` and against the literal read from a list. Compared bit for bit: an evaluator that treats an operand
+/// differently when it is written as a literal (a fast path keyed on the syntax tree) gives results that differ in the
+/// last place only.
+fn part_scalar_literals(ctx: &Ctx, sink: &mut Sink) {
+    const BASES: [&str; 22] = ["1.2", "1.3", "2.3", "0.3", "0.1", "0.7", "1.1", "1.7", "3", "2", "10", "0.5", "1e-3", "1e10", "7", "0", "1.0000001", "123.456", "9.99", "0.2", "1e-7", "2.5e3"];
+    const SECOND: [&str; 22] = ["2", "3", "4", "5", "7", "10", "0", "1", "-1", "-2", "-3", "64", "65", "100", "0.5", "1.5", "-0.5", "3.0", "1e2", "0.1", "0.3", "1e-3"];
+    const TEMPLATES: [&str; 26] = [
+        "A ^ B", "A * B", "A / B", "A % B", "A + B", "A - B", "A ^ B ^ C", "A * B * C", "A / B / C", "A + B + C", "(A ^ B) * C", "A ^ (B + 1)", "-A ^ B", "[A, C] ^ B", "A ^ [B, C]",
+        "A ^ B == A ^ B", "round(A * B, 3)", "sqrt(A) ^ B", "log(A, 10) * B", "min(A ^ B, C)", "A ^ B + A * B - A / B", "(A + B) ^ C", "abs(A - B) ^ C", "exp(A) / B", "A < B", "[A ^ B, A * C] via (q => q ^ B)",
+    ];
+    let n = ctx.budget(5_000, 150_000);
+    for i in 0..n {
+        if !ctx.mine(i) {
+            continue;
+        }
+        let mut r = Rng::derive(ctx.seed, "c02-literals", i);
+        // the first TEMPLATES x BASES x SECOND cases walk `A ^ B` and friends systematically, the rest are random
+        let (t, a, b) = if (i as usize) < TEMPLATES.len() * BASES.len() {
+            let k = i as usize;
+            (TEMPLATES[k % TEMPLATES.len()], BASES[(k / TEMPLATES.len()) % BASES.len()], SECOND[(k / 7) % SECOND.len()])
+        } else {
+            (*r.pick(&TEMPLATES), *r.pick(&BASES), *r.pick(&SECOND))
+        };
+        let c = *r.pick(&SECOND);
+        let src = t.replace('A', a).replace('B', b).replace('C', c);
+        let Ok(mut prog) = crate::rt::parse_program(&src) else {
+            sink.obs("literal-expression-unparsable", json!({"source": src}));
+            continue;
+        };
+        let e = prog.remove(0);
+        let base = {
+            let s = Sess::new();
+            s.rout(&s.eval(&print_min(&assign("res", e.clone()))))
+        };
+        let mut paths = Vec::new();
+        strict_paths(&e, &mut Vec::new(), &mut paths);
+        // the literal leaves, and a literal under its sign
+        paths.retain(|p| match get_at(&e, p) {
+            H::Num(_) => true,
+            H::Un(crate::hexpr::UOp::Neg, inner) => matches!(*inner, H::Num(_)),
+            _ => false,
+        });
+        sink.case(&format!("c02l|{}", src), matches!(base, ROut::Ok(_)) && !paths.is_empty());
+        for p in paths.iter() {
+            let sub = get_at(&e, p);
+            for how in 0..3 {
+                let s2 = Sess::new();
+                let (setup, replaced, label) = match how {
+                    0 => (print_min(&assign("t_abs", sub.clone())), print_min(&assign("res", replace_at(&e, p, &id("t_abs")))), "named"),
+                    1 => ("1".to_string(), format!("res = (p_abs => ({}))({})", print_min(&replace_at(&e, p, &id("p_abs"))), print_min(&sub)), "parameter"),
+                    _ => (format!("l_abs = [{}]", print_min(&sub)), format!("res = {}", print_min(&replace_at(&e, p, &id("l_abs"))).replace("l_abs", "l_abs[0]")), "list element"),
+                };
+                if !matches!(s2.rout(&s2.eval(&setup)), ROut::Ok(_)) {
+                    continue;
+                }
+                let got = s2.rout(&s2.eval(&replaced));
+                sink.count("literal_let_abstractions", 1);
+                if !base.agrees(&got) {
+                    sink.viol(
+                        &format!("let-abstraction-differs literal-operand via={}", label),
+                        "replacing a literal operand by a name bound to that literal changes the result",
+                        json!({"expression": src, "literal": print_min(&sub), "setup": setup, "abstracted": replaced, "original_result": base.show(), "abstracted_result": got.show()}),
+                    );
+                    break;
+                }
+            }
+        }
+        if sink.want_sample() && i % 50 == 0 {
+            sink.sample(json!({"part": "literal let-abstraction", "expression": src, "result": base.show(), "literals_named": paths.len()}));
+        }
+    }
+}
+
 pub fn run(ctx: &Ctx, sink: &mut Sink) {
     part_directed(ctx, sink);
+    part_scalar_literals(ctx, sink);
     let cli = ctx.opt("cli").map(|s| s.to_string());
     let n = ctx.budget(16_000, 200_000);
     for i in 0..n {
